@@ -189,6 +189,7 @@ func runProp(spec *PropSpec, tier, mutant string, noMut bool) (code int) {
 		runRound17(c, spec)
 		runRound18(c, spec)
 		runRound19(c, spec)
+		runRound20(c, spec)
 		if c.Whole && spec.Thorough != nil {
 			spec.Thorough(c)
 		}
